@@ -67,7 +67,7 @@ theorem post_signal_names (m : RMatrix)
 /-- **a long frame name survives the round trip**: the frame written under its first characters with the long-name attribute comes back,
 at its place and with its identifier, under the long name -/
 theorem long_frame_name_survives (es : List WEcu) (hes : wfEcus es = true) (ts : List WTable) (hts : wfTables ts = true)
-    (ds : List DefLine) (hds : wfDefs ds = true) (dds : List DefDefLine) (hdds : ∀ d ∈ dds, wfDefDef d = true)
+    (ds : List DefLine) (hds : wfDefs ds = true) (dds : List DefDefLine) (hdds : wfDefaults ds dds = true)
     (ga : List (Str × Str)) (hga : wfAttrs (expectDefs ds dds) .global .global ga = true)
     (hea : ∀ e ∈ es, wfAttrs (expectDefs ds dds) .ecu (.ecu e.name) e.attrs = true)
     (ps : List (WFrame × (Nat × Bool))) (hwf : ∀ p ∈ ps, p.1.wf p.2 = true) (hdist : ps.Pairwise fun p q => p.2 ≠ q.2)
